@@ -82,7 +82,7 @@ inductive EncOp
   | raw (f : String)                         -- b.WriteString(p.f) / b.WriteBytes(p.f)
   | repRange (f : String) (n : Nat)          -- for _, x := range p.f { b.WriteFixedLenString(x, n) }
   | repCount (f : String) (cnt : Expr) (n : Nat)  -- for i := 0; i < int(cnt); i++ { …(p.f[i], n) }
-  | hexFixed (f : String) (n : Nat)          -- x, _ := hex.DecodeString(p.f); b.WriteFixedLenString(string(x), n)
+  | hexFixed (f : String) (n : Nat)          -- x, err := hex.DecodeString(p.f); if err != nil { return nil, err }; b.WriteFixedLenString(string(x), n)
   | tlvs (f : String)                        -- b.WriteBytes(p.f.Bytes()) / b.WriteBytes(p.f.Serialize())
   | assign (f : String) (e : Expr)           -- p.f = e   (receiver normalisation)
   | assignIf (c : Cond) (as : List (String × Expr))  -- if c { p.f1, … = e1, … }
@@ -105,6 +105,7 @@ inductive DecOp
   | repAppend (f : String) (cnt : Expr) (n : Nat)  -- for i<cnt { p.f = append(p.f, b.ReadCStringN(n)) }
   | tlvsRead (f : String)                    -- p.f = smpp.ReadTLVs1(b) / smgp.ReadOptions(b)
   | optsParse (f : String)                   -- p.f, parseErr = smgp.ParseOptions(b.Bytes())
+  | stopIfAbsent (f : String)                -- if p.f != 0 && b.Error() == nil && b.Remaining() == 0 { return nil }
   | unsupported (pos : String)
   deriving Repr
 
@@ -125,7 +126,7 @@ structure PduDesc where
 
 /-! ## Encoding -/
 
-inductive EncErr | writer (e : PErr) | panic (why : String) | unsupported (pos : String)
+inductive EncErr | writer (e : PErr) | panic (why : String) | unsupported (pos : String) | badHex
   deriving Repr, DecidableEq
 
 def hexNibble? (c : Nat) : Option Nat :=
@@ -142,6 +143,9 @@ def hexDecodeLenient : Bytes → Bytes
     | some x, some y => (x * 16 + y) :: hexDecodeLenient rest
     | _, _ => []
   | _ => []
+
+/-- `hex.DecodeString` succeeds: an even number of hexadecimal digits -/
+def hexValid (s : Bytes) : Bool := s.length % 2 == 0 && s.all fun c => (hexNibble? c).isSome
 
 def hexChar (n : Nat) : Nat := if n < 10 then 48 + n else 87 + n
 
@@ -168,7 +172,9 @@ def EncOp.run (st : EncState) : EncOp → Except EncErr EncState
     let l := st.r.strs f
     if cnt > l.length then .error (.panic "index out of range") else
     .ok { st with w := writeRep st.w n (l.take cnt) }
-  | .hexFixed f n => .ok { st with w := st.w.writeFixed (hexDecodeLenient (st.r.str f)) n }
+  | .hexFixed f n =>
+    if hexValid (st.r.str f) then .ok { st with w := st.w.writeFixed (hexDecodeLenient (st.r.str f)) n }
+    else .error .badHex
   | .tlvs f => .ok { st with w := st.w.writeBytes (tlvsBytes (st.r.tlvs f)) }
   | .assign f e => .ok { st with r := st.r.set f (.num (e.eval st.r)) }
   | .assignIf c as =>
@@ -243,7 +249,15 @@ def DecOp.run (st : DecState) : DecOp → Except DecOutcome DecState
     match parseOptions st.rd.bytes with
     | some m => .ok { st with r := st.r.set f (.tlvs m) }
     | none => .ok { st with r := st.r.set f (.tlvs []), parseErr := true }
+  | .stopIfAbsent f =>
+    -- an early `return nil`: decoding ends here, successfully, with the fields read so far (SMPP 3.4: the body of a
+    -- response is not returned when command_status is non-zero); the outcome travels on the exit channel of `runDec`
+    if st.r.num f ≠ 0 ∧ st.rd.err = none ∧ st.rd.remaining = 0 then .error (.ok st.r) else .ok st
   | .unsupported pos => .error (.unsupported pos)
+
+def DecOp.isStop : DecOp → Bool
+  | .stopIfAbsent _ => true
+  | _ => false
 
 def runDec : List DecOp → DecState → Except DecOutcome DecState
   | [], st => .ok st
